@@ -422,4 +422,64 @@ example : safeTpl .c { key := "x", name := [], arity := 2,
 /-- a team of two members, no newline in a member's text -/
 example : splitLines (teamG [[97, 43, 98], [99]]) = [[97, 43, 98], [99]] := by decide
 
+/-- `demoPacked` with other genes at the two INACTIVE loci [0,1] and [1,1] -/
+def demoPacked2 : List (List Gene) :=
+  [[.fn (fnIdx [70, 65, 68, 68]) [0, 0] [1, 2], .tm tmIdxQ [113, 113] 0],
+   [.fn (fnIdx [70, 76, 69, 78, 71, 84, 72]) [1] [2], .fn (fnIdx [70, 65, 68, 68]) [0, 0] [2, 2]],
+   [.tm (tmIdx [.toStrD]) [] 0x4008000000000000, .tm tmIdxQ [104, 101, 108, 108, 111] 0]]
+
+/-- hypothesis of `export_ignores_inactive`: the two genomes differ (at [0,1] and [1,1]) but hold
+    the same gene at every locus active from [0,0] (these are [0,0], [1,0], [2,0], [2,1]) -/
+example : (∀ m, Active Gen.functions (Genome.ofRows demoPacked) ⟨0, 0⟩ m →
+      Genome.ofRows demoPacked m = Genome.ofRows demoPacked2 m) ∧
+    Genome.ofRows demoPacked ⟨1, 1⟩ ≠ Genome.ofRows demoPacked2 ⟨1, 1⟩ := by
+  have ha : (Gen.functions[fnIdx [70, 65, 68, 68]]?).map (·.arity) = some 2 := by decide
+  have hl : (Gen.functions[fnIdx [70, 76, 69, 78, 71, 84, 72]]?).map (·.arity) = some 1 := by decide
+  have key : ∀ m, Active Gen.functions (Genome.ofRows demoPacked) ⟨0, 0⟩ m →
+      m = ⟨0, 0⟩ ∨ m = ⟨1, 0⟩ ∨ m = ⟨2, 0⟩ ∨ m = ⟨2, 1⟩ := by
+    intro m h
+    induction h with
+    | root => exact Or.inl rfl
+    | @arg m' s acat args sym i _ hg hs hi ih =>
+      rcases ih with rfl | rfl | rfl | rfl
+      · have e : Genome.ofRows demoPacked ⟨0, 0⟩ = .fn (fnIdx [70, 65, 68, 68]) [0, 0] [1, 2] := rfl
+        rw [e] at hg
+        injection hg with h1 h2 h3
+        subst h1 h2 h3
+        rw [hs] at ha
+        simp only [Option.map_some, Option.some.injEq] at ha
+        have : i = 0 ∨ i = 1 := by omega
+        rcases this with rfl | rfl
+        · exact Or.inr (Or.inl rfl)
+        · exact Or.inr (Or.inr (Or.inl rfl))
+      · have e : Genome.ofRows demoPacked ⟨1, 0⟩ = .fn (fnIdx [70, 76, 69, 78, 71, 84, 72]) [1] [2] := rfl
+        rw [e] at hg
+        injection hg with h1 h2 h3
+        subst h1 h2 h3
+        rw [hs] at hl
+        simp only [Option.map_some, Option.some.injEq] at hl
+        have : i = 0 := by omega
+        subst this
+        exact Or.inr (Or.inr (Or.inr rfl))
+      · have e : Genome.ofRows demoPacked ⟨2, 0⟩ = .tm (tmIdx [.toStrD]) [] 0x4008000000000000 := rfl
+        rw [e] at hg; cases hg
+      · have e : Genome.ofRows demoPacked ⟨2, 1⟩ = .tm tmIdxQ [104, 101, 108, 108, 111] 0 := rfl
+        rw [e] at hg; cases hg
+  refine ⟨fun m h => ?_, by decide⟩
+  rcases key m h with rfl | rfl | rfl | rfl <;> rfl
+
+/-- hypothesis of `unfold_fuel_irrelevant` -/
+example : WfG Gen.functions (Genome.ofRows demoPacked) 3 :=
+  wfRows_sound Gen.functions demoPacked (by decide)
+
+/-- hypotheses of `language_selection_persists` / `print_format_selects`: a print, `long_form` and
+    `short_form` leave the format slot alone; `python_language` does not -/
+example : (∀ o ∈ [Op.print, .manip "long_form" 0, .print, .manip "short_form" 0],
+      quiet Gen.manipulators Gen.formatSlot o = true) ∧
+    quiet Gen.manipulators Gen.formatSlot (.manip "python_language" 0) = false ∧
+    ("python_language", Fmt.py) ∈ langManips := by decide
+
+/-- hypothesis of `to_string_double_reads_back`: 2.5 is finite -/
+example : 0x4004000000000000 / 2 ^ 52 % 2048 ≠ 2047 := by decide
+
 end Vita.C19
